@@ -1037,7 +1037,9 @@ decl(struct scope *s, struct func *f)
 			error(&tok.loc, "external declaration must not contain 'register'");
 	}
 	if (consume(TSEMICOLON)) {
-		/* XXX 6.7p2 error unless in function parameter/struct/union, or tag/enum members are declared */
+		/* XXX 6.7p2: only checks that the specifiers could have declared a tag or enum members */
+		if (base.type->kind != TYPESTRUCT && base.type->kind != TYPEUNION && base.type->kind != TYPEENUM)
+			error(&tok.loc, "declaration does not declare anything");
 		return true;
 	}
 	for (;;) {
